@@ -93,6 +93,9 @@ func (r *Registry) PubID(v *big.Int) int {
 	if v == nil {
 		return 0
 	}
+	if v.Sign() == 0 {
+		return -2
+	}
 	return r.PubIDBytes(v.Bytes())
 }
 
